@@ -3,7 +3,7 @@ import json, struct
 import common, sim, proto, c10
 from common import run_model, res_decode, exn_name
 
-RULE = ('every prefix length 0..N of five reference server byte streams (status exchange with ping; status query then login on a second '
+RULE = ('every prefix length 0..N of the reference server byte streams (status exchange with ping; status query then login on a second '
         'connection; login with compression then play; login with encryption then play; play traffic), each followed by end of '
         'stream, through the simulated transport with the real reactors: the networking thread must terminate (a read budget after end '
         'of stream detects spinning, a read with nothing available detects blocking), report EOFError through the handlers or take the '
@@ -36,6 +36,10 @@ def streams(rng, secret):
             proto.frame(0x7e, b'unknown-frame-content'), proto.frame(ids47.keep_alive, proto.varint(5)),
             proto.frame(ids47.play_disconnect, proto.string('{"text":"bye"}'))]
     out['play'] = dict(kind='connect', allowed=[47], pv=47, conns=[(play, None)])
+    # a conversation with one large frame (a chunk-sized unknown packet): buffering boundaries inside a frame
+    large = [proto.frame(ids47.login_success, ids47.b_login_success()), proto.frame(ids47.keep_alive, proto.varint(1)),
+             proto.frame(0x7e, bytes((i * 7) % 251 for i in range(20011))), proto.frame(ids47.keep_alive, proto.varint(2))]
+    out['play+large-frame'] = dict(kind='connect', allowed=[47], pv=47, conns=[(large, None)])
     return out
 
 
@@ -58,6 +62,14 @@ def run(chk):
         for ci, wire in enumerate(wires):
             n = len(wire)
             ks = range(n + 1) if (th or n <= 400) else sorted(set(list(range(0, n + 1, 3)) + [n]))
+            if n > 3000:
+                ends, o = [], 0
+                for f in sc['conns'][ci][0]:
+                    o += len(f)
+                    ends += [o - 1, o, o + 1]
+                pts = [0, 1, 2, 3, 4, 5, n - 1, n] + ends + [b + d for b in (4096, 8192, 16384) for d in (-1, 0, 1)] + [b + 60 + d for b in (8192, 16384) for d in (-1, 0, 1)]
+                pts += [rng.randrange(n) for _ in range(120 if th else 40)]
+                ks = sorted(set(p for p in pts if 0 <= p <= n))
             for k in ks:
                 jobs.append((name, sc, ci, k, wires))
     model_reqs, model_idx = [], []
